@@ -520,7 +520,7 @@ func c12Mutate(t *rapid.T, body []byte, donor []byte) ([]byte, []string) {
 	var kinds []string
 	n := rapid.IntRange(1, 4).Draw(t, "nmut")
 	for i := 0; i < n && len(b) > 0; i++ {
-		k := rapid.SampledFrom([]string{"truncate", "flip", "byte", "pkglen", "pkglen", "selfname", "splice", "swapop", "dup", "insert", "nest", "bufnest", "bufnest", "fieldconn"}).Draw(t, "mutk")
+		k := rapid.SampledFrom([]string{"truncate", "flip", "byte", "pkglen", "pkglen", "selfname", "splice", "swapop", "dup", "insert", "nest", "bufnest", "bufnest", "fieldconn", "extop"}).Draw(t, "mutk")
 		pos := rapid.IntRange(0, len(b)-1).Draw(t, "pos")
 		switch k {
 		case "truncate":
@@ -582,6 +582,24 @@ func c12Mutate(t *rapid.T, body []byte, donor []byte) ([]byte, []string) {
 					b = append(b[:at], append(inner, b[at:]...)...)
 					break
 				}
+			}
+		case "extop":
+			// an extended opcode (0x5b xx) with an arbitrary second byte - undefined ones and the
+			// codes the parser uses internally included - in place of the next extended opcode,
+			// or as a new term
+			x := rapid.Byte().Draw(t, "extop")
+			if rapid.Bool().Draw(t, "extophigh") {
+				x = 0xf0 | x&0x0f
+			}
+			done := false
+			for j := pos; j+1 < len(b); j++ {
+				if b[j] == 0x5b {
+					b[j+1], done = x, true
+					break
+				}
+			}
+			if !done {
+				b = append(b[:pos], append([]byte{0x5b, x}, b[pos:]...)...)
 			}
 		case "fieldconn":
 			// put 1-3 Connection(Buffer) elements with a tiny or zero PkgLength at the start of
